@@ -83,7 +83,7 @@ def run(ctx):
     rnd = random.Random(ctx.seed)
     ctx.trusted += ["coq/Ndx/Sort.v: TopK(k=len, sorted) as insertion sort on (value, index) pairs under the lexicographic order, Unique(sorted) — validated by the in-Coq correspondence"]
     ctx.not_discharged += ["searchsorted: the implementation's unique/inverse/cumulative-count algorithm is compared (in Coq) with the counting specification on every generated case; no general proof",
-                           "unique_all invariants (inverse reconstructs, counts sum to size): by computation on the cases, not proved in general",
+                           "unique_all on the implementation's own algorithm (Unique node + first-occurrence search): compared with the model on every generated case; the invariants (values, first occurrences, inverse rebuilds, counts are multiplicities and add up) are theorems about the model",
                            "where with three-way broadcasting: NumPy correspondence only"]
     ctx.static_build()
     corr(ctx, rnd, 500 if ctx.tier == "quick" else 5000)
